@@ -286,6 +286,7 @@ type WorkerOut struct {
 	Violations   []ViolationOut      `json:"violations"`
 	HarnessErr   string              `json:"harness_error"`
 	Nondet       string              `json:"nondeterminism"`
+	NondetCount  int64               `json:"nondeterminism_count"`
 	DetChecked   int64               `json:"determinism_rechecked"`
 	WallS        float64             `json:"wall_s"`
 	Real         []string            `json:"real"`
@@ -458,8 +459,20 @@ func (w *worker) account(sc *scen.Scenario, seed uint64, ex *Exec) {
 		re := replayExec(w.t, sc, ex.Gen, ex.Sched, false, false, w.tier)
 		o.DetChecked++
 		if re.Hash != ex.Hash || re.Steps != ex.Steps || len(re.Run.Viol) != len(ex.Run.Viol) {
-			o.Nondet = fmt.Sprintf("scenario %s seed %d: replay diverged (steps %d vs %d, hash %x vs %x)", sc.Name, seed, ex.Steps, re.Steps, ex.Hash, re.Hash)
-			w.stop = true
+			// which of the two was the odd one? a second re-execution tells (the driver tolerates a very small number of
+			// such runs and says so; a violation is only ever reported when it reproduces from its tapes in a fresh process)
+			re2 := replayExec(w.t, sc, ex.Gen, ex.Sched, false, false, w.tier)
+			odd := "all three executions differ"
+			switch {
+			case re2.Hash == re.Hash && re2.Steps == re.Steps:
+				odd = "the two re-executions agree, the first execution was the odd one"
+			case re2.Hash == ex.Hash && re2.Steps == ex.Steps:
+				odd = "the second re-execution agrees with the first execution, the first re-execution was the odd one"
+			}
+			o.NondetCount++
+			if o.Nondet == "" {
+				o.Nondet = fmt.Sprintf("scenario %s seed %d: replay diverged (steps %d vs %d, hash %x vs %x; %s)", sc.Name, seed, ex.Steps, re.Steps, ex.Hash, re.Hash, odd)
+			}
 		}
 	}
 }
